@@ -42,7 +42,8 @@ def parseEvent (j : Json) : Except String Event := do
     step that raises leaves the state unchanged (as the code does: it raises before mutating) and
     its error class is reported.
     request : {"mode":"ops","stations","early","evs":[{"id","st0"}],"choices",
-               "ops":[["plugin",id]|["unplug",id]|["post",[full ids]]]} -/
+               "ops":[["plugin",id]|["unplug",id]|["post",[full ids]]|["register",station id]]}
+    every answer step also carries "free" = `available_evses()` after the step -/
 def handleOps (j : Json) : Except String Json := do
   let stations ← (← getArr j "stations").mapM (fun v => v.getStr?)
   let early ← getBool j "early"
@@ -58,6 +59,13 @@ def handleOps (j : Json) : Except String Json := do
   for o in ← getArr j "ops" do
     let a ← asArr o
     let op ← (a.getD 0 Json.null).getStr?
+    if op == "register" then
+      -- `register_evse` (charging_network.py:154-180) of a NEW station id while the network is in use: the
+      -- station list grows at the end (dict insertion order); nothing else happens (nobody is admitted)
+      let sid ← (a.getD 1 Json.null).getStr?
+      s := { s with stations := s.stations ++ [sid] }
+      outs := outs.push (Json.mkObj [("err", Json.null), ("snap", jSnap (s.snapshot ids)), ("free", jList jS s.free)])
+      continue
     let st : Step ←
       if op == "post" then do
         let fl ← (← asArr (a.getD 1 Json.null)).mapM (fun w => w.getStr?)
@@ -68,10 +76,10 @@ def handleOps (j : Json) : Except String Json := do
         else if op == "unplug" then pure (Step.ev ⟨0, .unplug, x⟩)
         else throw s!"unknown op {op}"
     match s.step cs st with
-    | .error e => outs := outs.push (Json.mkObj [("err", jS e.name), ("snap", jSnap (s.snapshot ids))])
+    | .error e => outs := outs.push (Json.mkObj [("err", jS e.name), ("snap", jSnap (s.snapshot ids)), ("free", jList jS s.free)])
     | .ok s' =>
       s := s'
-      outs := outs.push (Json.mkObj [("err", Json.null), ("snap", jSnap (s.snapshot ids))])
+      outs := outs.push (Json.mkObj [("err", Json.null), ("snap", jSnap (s.snapshot ids)), ("free", jList jS s.free)])
   pure (Json.mkObj [("steps", Json.arr outs), ("arrivals", jList jS s.arrivals)])
 
 /-- the COMPOSED model: sim-core's run loop with CPython's heap (`heapQ`) and the stochastic network
